@@ -176,6 +176,21 @@ def _big_exits(k):
     return g
 
 
+def _big_exits_joined(k):
+    """a branch: one arm is a ring loop of k blocks each leaving to its own exit block, the other arm enters two of
+    those exit blocks; the exit blocks flow into one another (i -> i+2) down to one return: a branch tail with k headers"""
+    g = {0: (1, k + 1)}
+    for i in range(1, k + 1):
+        g[i] = (i + 1 if i < k else 1, k + 1 + i)
+    g[k + 1] = (k + 2, k + 3)  # the other arm
+    last = 2 * k + 2
+    for i in range(1, k + 1):
+        e = k + 1 + i
+        g[e] = (min(e + 2, last),)
+    g[last] = ()
+    return g
+
+
 def _big_entries(k):
     """a loop entered at k different headers (k-way head dispatch)"""
     g = {}
@@ -204,7 +219,7 @@ def _big_entries(k):
     return {ren[u]: tuple(ren[t] for t in g[u]) for u in order}
 
 
-MANYWAY = [(_big_exits, k) for k in (5, 8, 9, 10, 13)] + [(_big_entries, k) for k in (5, 9, 12)]
+MANYWAY = [(_big_exits, k) for k in (5, 8, 9, 10, 13)] + [(_big_entries, k) for k in (5, 9, 12)] + [(_big_exits_joined, k) for k in (3, 5, 6, 9)]
 BIG = [(f, n) for n in (255, 256, 257, 258, 300) for f in (_big_chain, _big_loop)] + [(_big_ladder, 257), (_big_returns, 257), (_big_returns, 300), (_big_comb, 120), (_big_nest, 80)] + MANYWAY
 BIG_THOROUGH = BIG + [(_big_comb, 300), (_big_nest, 200), (_big_chain, 520), (_big_loop, 520), (_big_chain, 1030), (_big_loop, 1030), (_big_ladder, 300), (_big_returns, 520)]
 
